@@ -1241,6 +1241,14 @@ func (r *runner) early(sess *protos.Session, label func(party.ID) string, seed s
 		r.out.Why = "the donor run did not complete"
 		return
 	}
+	// what the deviating party sends in later rounds belongs to its own execution, not to the one the recipient built on
+	// the foreign message: whether it verifies is left to the real code (label "mut"), as for a field alteration
+	e.LabelEmit = func(inst party.ID, m *protocol.Message) string {
+		if inst == k && int(m.RoundNumber) > r.sc.Round {
+			return "mut"
+		}
+		return ""
+	}
 	for _, id := range r.su.ids {
 		e.AddParty(id, r.newParty(sess, id, label(id)))
 	}
